@@ -5688,6 +5688,14 @@ impl BytecodeVM {
                     .ok_or_else(|| JsError::internal_error("Invalid binding name constant"))?;
                 let val = self.get_reg(value).clone();
 
+                // The exports map is plain Rust data the collector does not trace, and an
+                // export without a same-named module binding (`export default ...`) is
+                // referenced from nowhere else until the namespace object is built at the end
+                // of the module body: root it (module exports live as long as the module).
+                if let JsValue::Object(obj) = &val {
+                    interp.root_guard.guard(obj.cheap_clone());
+                }
+
                 // Store in interpreter's exports map
                 interp.exports.insert(
                     export_name_str,
